@@ -237,7 +237,7 @@ theorem codePercent_ok {E : Env} {endT : Nat} {st : St} {loc : CodeLoc} {c1 c2 :
       · intro _
         split
         · split
-          · rw [hs _ rfl]; exact h2
+          · exact h2
           · exact h2
         · exact h2
       · intro he; rw [h.2] at he; exact absurd he tok_ne2
@@ -266,67 +266,65 @@ theorem codePercent_ok {E : Env} {endT : Nat} {st : St} {loc : CodeLoc} {c1 c2 :
           · exact op_ok hb (by omega) (by omega)
 
 /-- a rune decoded as U+FEFF takes three bytes -/
-theorem decodeRune_BOM {l : Bytes} (h : (decodeRune l).1 = BOM) : (decodeRune l).2 = 3 := by
-  unfold decodeRune at h ⊢
-  unfold BOM at h
+theorem ite_pair_fst {C : Prop} [Decidable C] {x n : Nat}
+    (h : (if C then (x, n) else (65533, 1)).1 = 65279) : C ∧ x = 65279 := by
   split at h
+  · rename_i hc; exact ⟨hc, h⟩
   · simp at h
-  · rename_i p0 rest
-    split at h
-    · rename_i hlt
-      simp only [] at h
-      have : p0.toNat < 128 := by simpa [UInt8.lt_iff_toNat_lt] using hlt
-      omega
-    · split at h
-      · simp at h
-      · split at h
-        · -- two bytes: at most 0x7FF
-          split at h
-          · split at h
-            · simp only [] at h
-              rename_i b1 _ _
-              have := b1.toNat_lt
-              omega
-            · simp at h
-          · simp at h
-        · split at h
-          · -- three bytes
-            rename_i h3
-            simp only [h3, if_true]
-            split at h
-            · split at h
-              · rename_i hc
-                simp only [hc, if_true]
-              · simp at h
-            · simp at h
-          · split at h
-            · -- four bytes: at least 0x10000
-              rename_i hge _
-              split at h
-              · split at h
-                · rename_i b1 b2 b3 tl hc
-                  simp only [] at h
-                  exfalso
-                  have hp0 : 240 ≤ p0.toNat := by
-                    have : ¬ p0 < 240 := hge
-                    simpa [UInt8.lt_iff_toNat_lt] using this
-                  have hb1 := hc.1
-                  by_cases hq : p0 = 0xF0
-                  · subst hq
-                    simp only [beq_self_eq_true, if_true] at hb1
-                    have : 144 ≤ b1.toNat := by simpa [UInt8.le_iff_toNat_le] using hb1
-                    have := b1.toNat_lt
-                    have hh : (0xF0 : UInt8).toNat = 240 := rfl
-                    rw [hh] at h
-                    omega
-                  · have hne : p0.toNat ≠ 240 := by
-                      intro he; apply hq; exact UInt8.toNat_inj.mp (by rw [he]; rfl)
-                    have : p0.toNat < 256 := p0.toNat_lt
-                    omega
-                · simp at h
-              · simp at h
-            · simp at h
 
+theorem decodeRune_BOM {l : Bytes} (h : (decodeRune l).1 = BOM) : (decodeRune l).2 = 3 := by
+  unfold BOM at h
+  cases l with
+  | nil => simp [decodeRune] at h
+  | cons p0 rest =>
+    by_cases h1 : p0 < 0x80
+    · have : p0.toNat < 128 := by simpa [UInt8.lt_iff_toNat_lt] using h1
+      simp [decodeRune, h1] at h; omega
+    · by_cases h2 : p0 < 0xC2
+      · simp [decodeRune, h1, h2] at h
+      · by_cases h3 : p0 < 0xE0
+        · cases rest with
+          | nil => simp [decodeRune, h1, h2, h3] at h
+          | cons b1 tl =>
+            simp only [decodeRune, h1, h2, h3, if_false, if_true] at h
+            have := (ite_pair_fst h).2
+            omega
+        · by_cases h4 : p0 < 0xF0
+          · match rest with
+            | [] => simp [decodeRune, h1, h2, h3, h4] at h
+            | [_] => simp [decodeRune, h1, h2, h3, h4] at h
+            | b1 :: b2 :: tl =>
+              simp only [decodeRune, h1, h2, h3, h4, if_false, if_true] at h ⊢
+              have hc := (ite_pair_fst h).1
+              rw [if_pos hc]
+          · by_cases h5 : p0 < 0xF5
+            · match rest with
+              | [] => simp [decodeRune, h1, h2, h3, h4, h5] at h
+              | [_] => simp [decodeRune, h1, h2, h3, h4, h5] at h
+              | [_, _] => simp [decodeRune, h1, h2, h3, h4, h5] at h
+              | b1 :: b2 :: b3 :: tl =>
+                simp only [decodeRune, h1, h2, h3, h4, h5, if_false, if_true] at h
+                obtain ⟨hc, hx⟩ := ite_pair_fst h
+                exfalso
+                have hp0 : 240 ≤ p0.toNat := by simpa [UInt8.lt_iff_toNat_lt] using h4
+                have hb1 := hc.1
+                by_cases hq : p0 = 0xF0
+                · subst hq
+                  simp only [beq_self_eq_true, if_true] at hb1
+                  have : 144 ≤ b1.toNat := by simpa [UInt8.le_iff_toNat_le] using hb1
+                  have hb1' := hc.2.1
+                  have : b1.toNat ≤ 191 := by
+                    have e : ((0xF0 : UInt8) == 244) = false := by decide
+                    simp only [e, Bool.false_eq_true, if_false] at hb1'
+                    simpa [UInt8.le_iff_toNat_le] using hb1'
+                  have hh : (0xF0 : UInt8).toNat = 240 := rfl
+                  rw [hh] at hx
+                  omega
+                · have hne : p0.toNat ≠ 240 := by
+                    intro he; apply hq; exact UInt8.toNat_inj.mp (by rw [he]; rfl)
+                  have : p0.toNat < 245 := by simpa [UInt8.lt_iff_toNat_lt] using h5
+                  omega
+            · simp [decodeRune, h1, h2, h3, h4, h5] at h
 theorem codeIdent_ok {E : Env} {endT : Nat} {st : St} {loc : CodeLoc} {c : UInt8}
     (hb : st.base ≤ E.text.length) (h0 : 0 < srcLen E st) :
     ∃ o, codeIdent E endT st loc c = .ok o ∧ CodeGood E endT st o := by
@@ -423,67 +421,84 @@ theorem codeStep_ok {E : Env} (hN : NumSpec E) {endT : Nat} {st : St} {loc : Cod
   | none =>
     simp only []
     have h1 : 1 ≤ srcLen E st := h0
-    split
-    · exact lit_ok (lexInterpretedString_ok hb h1)
-    · split
-      · exact lit_ok (lexRawString_ok hb h1)
-      · split
-        · exact lit_ok (lexRuneLiteral_ok hb h1)
-        · split
-          · rename_i hdot
-            cases hd : peek E st 1 with
-            | none => exact op_ok hb (by omega) (by omega)
-            | some d =>
-              simp only []
-              split
-              · rename_i hdig
-                apply lit_ok
-                apply hN.lexNumber_ok st hb
-                exact ⟨c, hpk, Or.inr ⟨hdot, d, hd, hdig⟩⟩
-              · split
-                · rename_i h
-                  have := l3 _ h.2
-                  exact op_ok hb (by omega) (by omega)
-                · exact op_ok hb (by omega) (by omega)
-          · split
-            · rename_i hdig
-              apply lit_ok
-              apply hN.lexNumber_ok st hb
-              exact ⟨c, hpk, Or.inl hdig⟩
-            · split
-              · exact codeSlash_ok hb h0 rfl
-              · split
-                · exact codePercent_ok hb h0 rfl rfl
-                · split
-                  · obtain ⟨s1, h, e, b, _, t⟩ := emitAdv_ok (E := E) (st := st) (typ := tokenLeftBrace) (n := 1) h1 hb
-                    simp only [h, bind_ok, pure_eq_ok]
-                    exact ⟨_, rfl, e, t, by omega⟩
-                  · split
-                    · split
-                      · rename_i h
-                        refine ⟨_, rfl, Ext.refl hb, rfl, ?_⟩
-                        intro _
-                        have := l2 _ h.2.1
-                        exact ⟨fun _ => this, fun he => by rw [h.1] at he; exact absurd he tok_ne1⟩
-                      · obtain ⟨s1, h, e, b, _, t⟩ := emitAdv_ok (E := E) (st := st) (typ := tokenRightBrace) (n := 1) h1 hb
-                        simp only [h, bind_ok, pure_eq_ok]
-                        exact ⟨_, rfl, e, t, by omega⟩
-                    · split
-                      · obtain ⟨s1, hk, heq, e1⟩ := skip_ok (E := E) (st := st) (k := 1) h1 hb
-                        simp only [hk, bind_ok, pure_eq_ok]
-                        exact ⟨_, rfl, e1.of_eq rfl rfl, by rw [heq]; rfl, by rw [heq]; show st.base < st.base + 1; omega⟩
-                      · split
-                        · obtain ⟨s1, l1, ha, e1, b1, t1⟩ := autoSemi_ok (E := E) (st := st) (loc := loc) true hb
-                          simp only [ha, bind_ok]
-                          obtain ⟨s2, hk, heq, e2⟩ := skip_ok (E := E) (st := newline s1) (k := 1)
-                            (by show 1 ≤ srcLen E s1; unfold srcLen at h1 ⊢; rw [b1]; exact h1) e1.le_len
-                          simp only [hk, bind_ok, pure_eq_ok]
-                          refine ⟨_, rfl, e1.trans (((Ext.refl e1.le_len).of_eq rfl rfl : Ext E s1 (newline s1)).trans e2), ?_, ?_⟩
-                          · rw [heq]; exact t1
-                          · rw [heq]; show st.base < s1.base + 1; rw [b1]; omega
-                        · split
-                          · exact ⟨_, rfl, Ext.refl hb, rfl, by intro h; cases h⟩
-                          · exact codeIdent_ok hb h0
+    by_cases q1 : c = 0x22
+    · rw [if_pos q1]; exact lit_ok (lexInterpretedString_ok hb h1)
+    rw [if_neg q1]
+    by_cases q2 : c = 0x60
+    · rw [if_pos q2]; exact lit_ok (lexRawString_ok hb h1)
+    rw [if_neg q2]
+    by_cases q3 : c = 0x27
+    · rw [if_pos q3]; exact lit_ok (lexRuneLiteral_ok hb h1)
+    rw [if_neg q3]
+    by_cases q4 : c = 0x2e
+    · rw [if_pos q4]
+      cases hd : peek E st 1 with
+      | none => exact op_ok hb (by omega) (by omega)
+      | some d =>
+        simp only []
+        by_cases hdig : 0x30 ≤ d ∧ d ≤ 0x39
+        · rw [if_pos hdig]
+          apply lit_ok
+          apply hN.lexNumber_ok st hb
+          exact ⟨c, hpk, Or.inr ⟨q4, d, hd, hdig⟩⟩
+        · rw [if_neg hdig]
+          split
+          · rename_i h
+            have := l3 _ h.2
+            exact op_ok hb (by omega) (by omega)
+          · exact op_ok hb (by omega) (by omega)
+    rw [if_neg q4]
+    by_cases q5 : 0x30 ≤ c ∧ c ≤ 0x39
+    · rw [if_pos q5]
+      apply lit_ok
+      apply hN.lexNumber_ok st hb
+      exact ⟨c, hpk, Or.inl q5⟩
+    rw [if_neg q5]
+    by_cases q6 : c = 0x2f
+    · rw [if_pos q6]; exact codeSlash_ok hb h0 rfl
+    rw [if_neg q6]
+    by_cases q7 : c = 0x25
+    · rw [if_pos q7]; exact codePercent_ok hb h0 rfl rfl
+    rw [if_neg q7]
+    by_cases q8 : c = 0x7b
+    · rw [if_pos q8]
+      obtain ⟨s1, h, e, b, _, t⟩ := emitAdv_ok (E := E) (st := st) (typ := tokenLeftBrace) (n := 1) h1 hb
+      simp only [h, bind_ok, pure_eq_ok]
+      exact ⟨_, rfl, e, t, by omega⟩
+    rw [if_neg q8]
+    by_cases q9 : c = 0x7d
+    · rw [if_pos q9]
+      split
+      · rename_i h
+        refine ⟨_, rfl, Ext.refl hb, rfl, ?_⟩
+        intro _
+        have := l2 _ h.2.1
+        exact ⟨fun _ => this, fun he => by rw [h.1] at he; exact absurd he tok_ne1⟩
+      · obtain ⟨s1, h, e, b, _, t⟩ := emitAdv_ok (E := E) (st := st) (typ := tokenRightBrace) (n := 1) h1 hb
+        simp only [h, bind_ok, pure_eq_ok]
+        exact ⟨_, rfl, e, t, by omega⟩
+    rw [if_neg q9]
+    by_cases q10 : c = 0x20 ∨ c = 0x09 ∨ c = 0x0d
+    · rw [if_pos q10]
+      obtain ⟨s1, hk, heq, e1⟩ := skip_ok (E := E) (st := st) (k := 1) h1 hb
+      simp only [hk, bind_ok, pure_eq_ok]
+      exact ⟨_, rfl, e1.of_eq rfl rfl, by rw [heq]; rfl, by rw [heq]; show st.base < st.base + 1; omega⟩
+    rw [if_neg q10]
+    by_cases q11 : c = 0x0a
+    · rw [if_pos q11]
+      obtain ⟨s1, l1, ha, e1, b1, t1⟩ := autoSemi_ok (E := E) (st := st) (loc := loc) true hb
+      simp only [ha, bind_ok]
+      obtain ⟨s2, hk, heq, e2⟩ := skip_ok (E := E) (st := newline s1) (k := 1)
+        (by show 1 ≤ srcLen E s1; unfold srcLen at h1 ⊢; rw [b1]; exact h1) e1.le_len
+      simp only [hk, bind_ok, pure_eq_ok]
+      refine ⟨_, rfl, e1.trans (((Ext.refl e1.le_len).of_eq rfl rfl : Ext E s1 (newline s1)).trans e2), ?_, ?_⟩
+      · rw [heq]; exact t1
+      · rw [heq]; show st.base < s1.base + 1; rw [b1]; omega
+    rw [if_neg q11]
+    by_cases q12 : c = 0x00
+    · rw [if_pos q12]; exact ⟨_, rfl, Ext.refl hb, rfl, by intro h; cases h⟩
+    rw [if_neg q12]
+    exact codeIdent_ok hb h0
 
 theorem codeLoop_ok {E : Env} (hN : NumSpec E) {endT : Nat} : ∀ (fuel : Nat) (st : St) (loc : CodeLoc),
     st.base ≤ E.text.length → srcLen E st < fuel →
@@ -521,7 +536,10 @@ theorem tok_eof2 : tokenEndStatement ≠ tokenEOF := by decide
 theorem tok_eof3 : tokenEndStatements ≠ tokenEOF := by decide
 
 theorem stopOK_eof (E : Env) (st : St) : StopOK E tokenEOF st :=
-  ⟨fun h => by rcases h with h | h <;> [exact absurd h.symm tok_eof1; exact absurd h.symm tok_eof2],
+  ⟨fun h => by
+     rcases h with h | h
+     · exact absurd h.symm tok_eof1
+     · exact absurd h.symm tok_eof2,
    fun h => absurd h.symm tok_eof3⟩
 
 /-- `lexCode` meets the specification the template layer relies on, given `lexNumber`'s -/
